@@ -57,11 +57,14 @@ def mk(system, params, U):
     return ub
 
 
+def is_angle(system, i):
+    return (system == "Rhombohedral" and i == 1) or (system == "Monoclinic" and i == 3) or (system == "Triclinic" and i >= 3)
+
+
 def perturb(rng, system, params, rel=0.03):
     out = []
     for i, p in enumerate(params):
-        is_angle = (system == "Rhombohedral" and i == 1) or (system == "Monoclinic" and i == 3) or (system == "Triclinic" and i >= 3)
-        out.append(p + rng.uniform(-1.5, 1.5) if is_angle else p * (1 + rng.uniform(-rel, rel)))
+        out.append(p + rng.uniform(-1.5, 1.5) if is_angle(system, i) else p * (1 + rng.uniform(-rel, rel)))
     return tuple(out)
 
 
@@ -80,6 +83,15 @@ def gen_refine(rng):
     pos = (rng.uniform(-20, 20) if rng.random() < 0.5 else 0.0, rng.uniform(8, 110), rng.uniform(-40, 40) if rng.random() < 0.5 else 0.0,
            rng.uniform(-90, 90), rng.uniform(-90, 90), rng.uniform(-180, 180))
     wl = rng.choice([1.0, 1.54, 0.7, rng.uniform(0.5, 2.0)])
+    if rng.random() < 0.3:
+        # nearly aligned start: the reflection is consistent with a cell 1 % smaller and an orientation a few 1e-3 .. 1e-1 degrees away
+        scale_true = 1 / 1.01
+        true_p = tuple(p * scale_true if not is_angle(system, i) else p for i, p in enumerate(params))
+        ang = radians(rng.choice([0.1, 0.02, 0.01, 0.005, 0.001]))
+        ax = np.array([rng.uniform(-1, 1) for _ in range(3)]); ax /= np.linalg.norm(ax)
+        U_true = rot_from_rotvec(list(ax * ang)) @ U
+        t = mk(system, true_p, U_true)
+        hkl = tuple(float(x) for x in fwd(np.asarray(t.UB, float), pos, wl))
     return system, params, U, hkl, pos, wl
 
 
